@@ -486,9 +486,6 @@ func runFrame(fr *frame) {
 		}
 		fr.panicking = true
 		fr.panic = r
-		if fr.i.onLeave != nil {
-			fr.i.onLeave(fr)
-		}
 		fr.runDefers()
 		fr.block = fr.fn.Recover
 	}()
